@@ -51,6 +51,8 @@ func NewFacts(P *ir.Program) *Facts {
 		MayFail:   map[*ssa.Function]bool{},
 	}
 	ir.ResetDeadMemo()
+	pn := pathNames(P)
+	posFieldName, nodeFieldName = pn.idx, pn.node
 	ir.DeadHook = F.deadBlock
 	F.resolveCalls()
 	F.effects()
